@@ -23,10 +23,16 @@ def main():
                 fn = impl.run_sync if eng == "sync" else impl.run_async
                 snaps = fn(am, events, seed_ctx={"v%d" % k: v for k, v in (cx or {}).items()}, raw_rearm=True)
                 text = json.dumps(snaps)
-                out.append(hashlib.sha256(text.encode()).hexdigest()[:16])
                 # in-process rebuild: the same case again must give the same trace
                 snaps2 = fn(am, events, seed_ctx={"v%d" % k: v for k, v in (cx or {}).items()}, raw_rearm=True)
-                if json.dumps(snaps2) != text:
+                text2 = json.dumps(snaps2)
+                if '"TIMEOUT"' in text or '"TIMEOUT"' in text2:
+                    # the wall-clock watchdog cut this run (a livelocking machine, or a slow host): where it cut depends on
+                    # the host's speed, not on the library - inconclusive, never compared
+                    out.append("TIMEOUT")
+                    continue
+                out.append(hashlib.sha256(text.encode()).hexdigest()[:16])
+                if text2 != text:
                     out[-1] += "!rebuild"
     print(json.dumps(out))
 
